@@ -113,14 +113,29 @@ func TestVerif_C20_ControlledSolo(t *testing.T) {
 			}
 		}))
 		nOps := rapid.IntRange(1, 25).Draw(rt, "nOps")
+		exhausted := false
 		wide := rapid.IntRange(0, 2).Draw(rt, "wideValues") == 0
 		if wide {
 			lbl["values-over-the-24-bit-range"] = true
 		}
 		for i := 0; i < nOps; i++ {
-			op := rapid.SampledFrom([]string{"nominate", "nominate", "nominate", "answer", "answer", "drop", "tick", "signal"}).Draw(rt, "op")
+			op := rapid.SampledFrom([]string{"nominate", "nominate", "nominate", "answer", "answer", "drop", "tick", "signal", "exhaustBudget"}).Draw(rt, "op")
 			s.purgeNonRequests()
 			switch op {
+			case "exhaustBudget":
+				// the agent's own checks all get lost until its retry budget is used up: its unvalidated pairs are Failed
+				if lite || exhausted {
+					continue
+				}
+				exhausted = true
+				for k := 0; k < 10; k++ {
+					s.ag.tick()
+					for _, d := range s.agentRequests() {
+						s.removeInflight(d)
+					}
+				}
+				lbl["own-checks-exhausted"] = true
+				arrivals = append(arrivals, "exhaustBudget")
 			case "signal":
 				if signalled[1] {
 					continue
@@ -166,6 +181,23 @@ func TestVerif_C20_ControlledSolo(t *testing.T) {
 					}
 				}
 				s.peerRequest(e, l, true, &v, 100, "controlling", 77)
+				if acc && !isValid {
+					// an accepted nomination on a pair that is not valid yet needs a check of the agent's own,
+					// whatever the pair's state (waiting, in progress, or failed after an exhausted budget)
+					found := false
+					for _, d := range s.agentRequests() {
+						if ep := s.epByAddr(d.dst); ep == e && d.src == l {
+							found = true
+						}
+					}
+					if !found {
+						st.Fail(rt, "C20/controlled/no-triggered-check-for-deferred-nomination", "step %d: nomination v=%d accepted on %v, which is not valid, but no check of the agent's own is on its way (budget exhausted before: %v)\narrivals: %s",
+							i, v, k, exhausted, strings.Join(arrivals, "; "))
+					}
+					if exhausted {
+						lbl["nomination-on-failed-pair"] = true
+					}
+				}
 			case "answer":
 				reqs := s.agentRequests()
 				if len(reqs) == 0 {
@@ -207,7 +239,7 @@ func TestVerif_C20_ControlledSolo(t *testing.T) {
 			labels = append(labels, l)
 		}
 		desc := fmt.Sprintf("lite=%v renomEnabled=%v %s", lite, renomEnabled, strings.Join(arrivals, "; "))
-		nontrivial := lbl["nomination-before-pair-valid"] || lbl["stale-or-duplicate-nomination"] || lbl["prflx-superseded-with-deferred-nomination"]
+		nontrivial := lbl["nomination-before-pair-valid"] || lbl["stale-or-duplicate-nomination"] || lbl["prflx-superseded-with-deferred-nomination"] || lbl["nomination-on-failed-pair"]
 		st.Record(vfHashStr(desc), nontrivial && len(accepted) > 0, labels...)
 		if nontrivial && st.WantSample() {
 			st.Sample(func() string { return desc })
